@@ -104,6 +104,7 @@ type llReq struct {
 	hint    bool
 	hintNum int
 	done    bool
+	encoded bool
 }
 
 func scC06(r *Run) {
@@ -293,6 +294,15 @@ func scC06(r *Run) {
 				q.extra = Pick(T, "token=abc", "a=1&b=2")
 				vals = append(vals, q.extra)
 			}
+			// a directive name may arrive percent-encoded: the server decodes names, so it still is a directive
+			if T.Chance(1, 5) {
+				for i, v := range vals {
+					if strings.HasPrefix(v, "_HLS_") {
+						vals[i] = Pick(T, "%5FHLS_", "_%48LS_", "_HLS%5F", "%5F%48%4C%53%5F") + v[5:]
+						q.encoded = true
+					}
+				}
+			}
 			q.path = q.stream + "?" + strings.Join(vals, "&")
 			q.desc = q.path
 		}
@@ -446,7 +456,17 @@ func scC06(r *Run) {
 		}
 		// URIs never carry _HLS_ directives; other query parameters are preserved
 		for _, u := range urisOf(pl) {
-			if strings.Contains(u, "_HLS_") {
+			leaked := strings.Contains(u, "_HLS_")
+			if i := strings.IndexByte(u, '?'); i >= 0 && !leaked {
+				if qv, err := url.ParseQuery(u[i+1:]); err == nil {
+					for k := range qv {
+						if strings.HasPrefix(k, "_HLS_") {
+							leaked = true
+						}
+					}
+				}
+			}
+			if leaked {
 				r.Fail("uri-query", "hls-directive-leaked", "response to %s lists URI %q carrying an _HLS_ directive", q.desc, u)
 				return
 			}
